@@ -295,7 +295,10 @@ func burstMain(p BurstParams) {
 		vrt.Failf("%s: %d burst(s) of notifications but the stream was closed and re-opened %d time(s) (%s)%s", d, bursts, cycles, seq, why)
 	}
 	// the re-open does not start before last notification + delay (immediately for dynamic membership)
-	if p.Membership == "static" {
+	// (only when bursts and cycles pair up one to one: with a surplus or missing cycle - reported above - "the
+	// re-open of burst i" is not defined, and a Rebalance() call queued on the rebalance lock also blocks the
+	// notifying thread of this harness, which shifts every later notification)
+	if p.Membership == "static" && took > 0 && cycles >= minB && cycles <= maxB {
 		for i, rs := range reopenStarts {
 			early := i < len(lastOfBurst) && rs < lastOfBurst[i]+int64(delay)
 			earlyLenient := i < len(lastLenient) && rs < lastLenient[i]+int64(delay)
